@@ -216,6 +216,37 @@ def run(res):
         res.count("recordings")
     res.sample({"recordings_inspected": recs})
     set_tz("UTC")
+    # ---- the same inspection over writer histories that use rf_write_blocks (multi-block calls that
+    #      span files: a non-first block landing in a later file) in every mode
+    import writerlib as wl
+
+    def oracle(cfg, ops, reports, files, chdir, mrep, mfiles, hist):
+        seen = {}
+        for f in files:
+            if f["tmp"]:
+                continue
+            rows, nd = f["rows"], f["data"].shape[0]
+            for r, (g0, o0) in enumerate(rows):
+                o1 = rows[r + 1][1] if r + 1 < len(rows) else nd
+                for K in (g0, g0 + max(0, o1 - o0) - 1):          # first and last index of the block
+                    if o1 <= o0:
+                        continue
+                    res.case((cfg.n, cfg.d, cfg.sc, cfg.fc, K), nontrivial=False)
+                    sp, F, S = spec(0, cfg.n, cfg.d, cfg.sc, cfg.fc, K)
+                    want = (sp[3], sp[4][4:])
+                    if (f["subdir"], f["name"]) != want:
+                        res.violation("sample-in-wrong-file", "a stored sample lies outside the file/directory the exact layout names",
+                                      dict(hist, K=K, file=f["name"]), list(want), [f["subdir"], f["name"]])
+                        return
+                for K in range(g0, g0 + max(0, o1 - o0)):
+                    if K in seen and seen[K] != f["name"]:
+                        res.violation("index-in-two-files", "one sample index is stored in two files", dict(hist, K=K), seen[K], f["name"])
+                        return
+                    seen[K] = f["name"]
+        res.count("block_histories_inspected")
+    set_tz(rng.choice(TZS))
+    wl.run_histories(res, 40 if res.tier == "quick" else 600, oracle)
+    set_tz("UTC")
     # ---- guard the extraction
     subc = cases[:: max(1, len(cases) // 60)][:60]
     exprs = ["(let '(rc, a, b, s1, s2) := digital_rf_get_subdir_file (%d) (%d) (%d) (%d) (%d) (%d) in "
